@@ -32,8 +32,103 @@ NONDET_CALLS = {"id": "AbstractTransaction: row defaults to id(self) only when n
 
 
 def items(pr):
-    return [custom("set_iteration", set_iteration), custom("nondeterministic_calls", nondet_calls), custom("global_state", global_state),
+    return [custom("run_lived_state", run_lived_state), custom("set_iteration", set_iteration), custom("nondeterministic_calls", nondet_calls), custom("global_state", global_state),
             custom("yearly_sort_key_injective", sort_key_injective), lemma("C17.sort_unique")]
+
+
+RUN_LIVED_ROOTS = ("AbstractAccountingMethod", "AbstractCountry", "AbstractReportGenerator", "AbstractODSGenerator", "Configuration")
+MUTATORS = ("append", "add", "update", "setdefault", "pop", "clear", "insert", "insert_node", "extend", "remove", "discard", "popitem")
+JUSTIFIED_INSTANCE_STATE = {
+    "rp2.configuration.Configuration.__artificial_id_counter": "negative ids of artificial fee transactions: only their freshness matters, no report shows them (compared natively: each asset alone vs. together)",
+    "rp2.plugin.report.jp.tax_report_jp.Generator.__year_row_offset": "one summary line per asset by design; the generator object is created for one report",
+    "rp2.plugin.report.jp.tax_report_jp.Generator.__number_of_summaries": "position of the next summary sheet; one report per generator object",
+    "rp2.plugin.report.rp2_full_report.Generator.__in_out_sheet_transaction_2_row": "re-created at the start of every asset (fix 84e0aa4; obligation transaction_link_map_is_reset_per_asset)",
+    "rp2.plugin.report.rp2_full_report.Generator.__tax_sheet_year_2_row": "re-created at the start of every asset (fix 67a297a) and keyed by (asset, year)",
+}
+
+
+def _state_attrs(cls):
+    res = {}
+
+    def rec(attr, fn, how, container=False):
+        d = res.setdefault(attr, {"assigned_in": set(), "mutated_in": set(), "container": False})
+        d[how].add(fn)
+        d["container"] = d["container"] or container
+    for fn_ in [b for b in cls.body if isinstance(b, ast.FunctionDef)]:
+        for n in ast.walk(fn_):
+            if isinstance(n, (ast.Assign, ast.AnnAssign, ast.AugAssign)):
+                for tg in (n.targets if isinstance(n, ast.Assign) else [n.target]):
+                    if isinstance(tg, ast.Attribute) and isinstance(tg.value, ast.Name) and tg.value.id in ("self", "cls"):
+                        v = getattr(n, "value", None)
+                        cont = isinstance(v, (ast.Dict, ast.List, ast.Set, ast.DictComp, ast.ListComp, ast.SetComp)) or (isinstance(v, ast.Call) and A.dotted(v.func) in ("dict", "list", "set", "AVLTree", "defaultdict"))
+                        rec(tg.attr, fn_.name, "assigned_in", cont)
+                    if isinstance(tg, ast.Subscript) and isinstance(tg.value, ast.Attribute) and isinstance(tg.value.value, ast.Name) and tg.value.value.id in ("self", "cls"):
+                        rec(tg.value.attr, fn_.name, "mutated_in", True)
+            if isinstance(n, ast.Call) and isinstance(n.func, ast.Attribute) and n.func.attr in MUTATORS and isinstance(n.func.value, ast.Attribute) and \
+                    isinstance(n.func.value.value, ast.Name) and n.func.value.value.id in ("self", "cls"):
+                rec(n.func.value.attr, fn_.name, "mutated_in", True)
+    return res
+
+
+def run_lived_state(pr):
+    """Objects that live for the whole run (accounting methods, configuration, country, report generators) must not carry state from one asset
+    to the next: every attribute of such a class that is assigned or mutated outside __init__, or is a container mutated anywhere, is
+    enumerated and must be on the justified list; accounting-method classes must carry no mutable attribute at all."""
+    out = []
+    classes = {}
+    for m in A.all_modules(pr.tree):
+        for c in [n for n in m.tree.body if isinstance(n, ast.ClassDef)]:
+            classes[c.name + "@" + m.name] = (m, c)
+    by_name = {}
+    for k, (m, c) in classes.items():
+        by_name.setdefault(c.name, []).append((m, c))
+
+    def lived(c, seen=()):
+        if c.name in RUN_LIVED_ROOTS:
+            return c.name
+        for b in c.bases:
+            bn = A.dotted(b).split(".")[-1]
+            if bn in RUN_LIVED_ROOTS:
+                return bn
+            for m2, c2 in by_name.get(bn, []):
+                if c2 is not c and bn not in seen:
+                    r = lived(c2, seen + (bn,))
+                    if r:
+                        return r
+        return None
+    n = 0
+    for k, (m, c) in sorted(classes.items()):
+        root = lived(c)
+        if not root:
+            continue
+        for attr, d in sorted(_state_attrs(c).items()):
+            outside = (d["assigned_in"] | d["mutated_in"]) - {"__init__"}
+            text_only = outside <= {"_setup_text_data"} and not d["mutated_in"]
+            method_state = root == "AbstractAccountingMethod"
+            if not (outside or (d["container"] and d["mutated_in"]) or method_state) or text_only:
+                continue
+            n += 1
+            name = f"{m.name}.{c.name}.{attr}"
+            out.append(A.bvc(name, "frame", "state_of_a_run_lived_object_is_justified", name in JUSTIFIED_INSTANCE_STATE, m.relpath,
+                             JUSTIFIED_INSTANCE_STATE.get(name, f"{root} objects live across assets; attribute assigned in {sorted(d['assigned_in'])}, mutated in {sorted(d['mutated_in'])}: "
+                                                                "state that may carry over from one asset (or run phase) to the next")))
+    out.append(A.bvc("tree:run_lived_state", "frame", "enumeration_ran", True, "src/rp2", f"{n} attributes"))
+    te = A.func_node(pr.tree, "rp2.tax_engine._create_unfiltered_gain_and_loss_set")
+    s = ast.unparse(te) if te else ""
+    out.append(A.bvc("rp2.tax_engine._create_unfiltered_gain_and_loss_set", "frame", "each_asset_gets_a_fresh_accounting_engine",
+                     "new_accounting_engine: AccountingEngine = accounting_engine.__class__(accounting_engine.years_2_methods)" in s and
+                     "new_accounting_engine.initialize(taxable_event_iterator, acquired_lot_iterator)" in s and
+                     not [x for x in ast.walk(te) if isinstance(x, ast.Call) and isinstance(x.func, ast.Attribute) and isinstance(x.func.value, ast.Name) and x.func.value.id == "accounting_engine" and
+                          x.func.attr not in ("__class__",)], "src/rp2/tax_engine.py"))
+    # memoizing decorators on functions of run-lived modules
+    memo = []
+    for m in A.all_modules(pr.tree):
+        for f in [x for x in ast.walk(m.tree) if isinstance(x, ast.FunctionDef)]:
+            for d in f.decorator_list:
+                if A.dotted(d).split("(")[0].split(".")[-1] in ("lru_cache", "cache", "cached_property"):
+                    memo.append(f"{m.name}.{f.name}")
+    out.append(A.bvc("tree:memoization", "frame", "memoized_functions_are_keyed_by_class_names_only", set(memo) <= {"rp2.ods_parser._get_decimal_constructor_argument_names"}, "src/rp2", str(memo)))
+    return out
 
 
 def _set_typed_names(fnode):
